@@ -627,3 +627,9 @@ class C18(Check):
         out['parse_qsl_now'] = guarded(lambda: helpers.parse_qsl(qs), lambda l: [list(p) for p in l])
         out['query_now'] = guarded(lambda: dict(self._request(Request, qs, b'').query), lambda d: d)
         return out
+
+
+# the cache layer of the request object (cache_in / __setitem__ / __delitem__ / _on_env_changed / copy): an extra
+# correspondence stream and oracle shared with the other two checks that serve `cache_unobservable`
+from harness import envcachelib as _envcache  # noqa: E402
+_envcache.install(C18)
